@@ -751,6 +751,15 @@ theorem CInv_update_fields {σ : CState} (h : CInv σ) (key : String) (e e' : En
     simp only [this, if_false]
     exact h.noEmptyKey
 
+theorem CInv_trigger {σ : CState} (h : CInv σ) (key : String) (e : Entry) (hl : alLookup key σ.cache = some e) :
+    CInv (σ.trigger key e) ∧ (σ.trigger key e).staleApplied = σ.staleApplied := by
+  unfold CState.trigger
+  by_cases hn : needsUpdate e σ.now = true
+  · simp only [hn, if_true]
+    exact ⟨CInv_update_fields h key e { e with lastSync := σ.now } hl rfl _, trivial⟩
+  · simp only [hn, Bool.false_eq_true, if_false]
+    exact ⟨h, trivial⟩
+
 theorem CInv_step {σ : CState} (h : CInv σ) (op : COp) :
     CInv (cstep σ op) ∧ ((cstep σ op).staleApplied = false → σ.staleApplied = false) := by
   cases op with
@@ -816,6 +825,29 @@ theorem CInv_step {σ : CState} (h : CInv σ) (op : COp) :
     | some e =>
       have := CInv_update_fields h key e { e with lastAccess := σ.now } hl rfl σ.pending
       exact ⟨this, id⟩
+  | hot key packed =>
+    simp only [cstep]
+    cases hl : alLookup key σ.cache with
+    | none => exact ⟨h, id⟩
+    | some e =>
+      simp only
+      have h1 : CInv { σ with cache := alInsert key { e with lastAccess := σ.now } σ.cache } :=
+        CInv_update_fields h key e { e with lastAccess := σ.now } hl rfl σ.pending
+      have hl1 : alLookup key ({ σ with cache := alInsert key { e with lastAccess := σ.now } σ.cache } : CState).cache
+          = some { e with lastAccess := σ.now } := by simp [alLookup_insert]
+      by_cases hd : σ.now < e.deadline
+      · simp only [hd, if_true]
+        by_cases hp : packed = true
+        · simp only [hp, if_true]
+          have := CInv_trigger h1 key _ hl1
+          exact ⟨this.1, fun hs => by rw [this.2] at hs; exact hs⟩
+        · simp only [hp, Bool.false_eq_true, if_false]
+          exact ⟨h1, id⟩
+      · simp only [hd, if_false]
+        split
+        · exact ⟨h1, id⟩
+        · have := CInv_evict h1 key
+          exact ⟨this.1, fun hs => by rw [this.2] at hs; exact hs⟩
   | work =>
     simp only [cstep]
     cases hp : σ.pending with
@@ -1172,6 +1204,19 @@ theorem cstep_stale_of_not_work (σ : CState) (op : COp) (h : op ≠ COp.work) :
   | touch key =>
     simp only [cstep]
     cases alLookup key σ.cache <;> rfl
+  | hot key packed =>
+    simp only [cstep]
+    cases alLookup key σ.cache with
+    | none => rfl
+    | some e =>
+      simp only
+      split
+      · split
+        · unfold CState.trigger; split <;> rfl
+        · rfl
+      · split
+        · rfl
+        · rw [evict_stale]
 
 theorem stale_of_no_work (ops : List COp) : ∀ σ : CState, (∀ op ∈ ops, op ≠ COp.work) →
     σ.staleApplied = false → (crun σ ops).staleApplied = false := by
